@@ -227,6 +227,12 @@ func Keyed(maxObjs int, two bool) *TextSet {
 				arr := a.([]interface{})
 				out = append(out, append(append([]interface{}{}, arr...), 7.0))
 			}
+			if i%7 == 0 {
+				// a non-object member in front of the keyed members
+				arr := a.([]interface{})
+				out = append(out, append([]interface{}{"s"}, arr...))
+				out = append(out, map[string]interface{}{"items": append([]interface{}{[]interface{}{1.0}, nil}, arr...)})
+			}
 		}
 		return NewTextSet(out)
 	})
@@ -336,6 +342,25 @@ func Deep(full bool) *TextSet {
 					v = map[string]interface{}{string(rune('a' + i)): v}
 				}
 				out = append(out, v)
+			}
+		}
+		return NewTextSet(out)
+	})
+}
+
+// Mixed returns objects holding an array next to scalar members, and arrays of arrays, so that
+// one diff has a list hunk (with context) followed or preceded by hunks of other kinds.
+func Mixed() *TextSet {
+	return memoize("Mixed", func() *TextSet {
+		var out []V
+		arrs := gen.Arrays(3, []V{1.0, 2.0, 3.0})
+		for i, a := range arrs {
+			for _, b := range []V{5.0, 6.0} {
+				out = append(out, map[string]interface{}{"a": a, "b": b})
+			}
+			if i%3 == 0 {
+				out = append(out, map[string]interface{}{"a": a, "b": 5.0, "c": []interface{}{a, 1.0}})
+				out = append(out, []interface{}{a, []interface{}{5.0}}, []interface{}{a, []interface{}{6.0}})
 			}
 		}
 		return NewTextSet(out)
